@@ -31,7 +31,11 @@ func TestDebugPrio(t *testing.T) {
 		if only >= 0 && i != only {
 			continue
 		}
-		rng := r.Cfg.caseRNG("debug-"+mode, i)
+		fam := "debug-" + mode
+		if f := os.Getenv("VERIF_DEBUG_FAMILY"); f != "" {
+			fam = f
+		}
+		rng := r.Cfg.caseRNG(fam, i)
 		sc := genPrioScenario(rng, prioGen{Vers: vers, Dividers: allDividers, Mode: mode})
 		rep := 1
 		if v := os.Getenv("VERIF_DEBUG_REPEAT"); v != "" {
@@ -49,6 +53,9 @@ func TestDebugPrio(t *testing.T) {
 		el := time.Since(t0)
 		if c.res == nil {
 			t.Logf("#%d nil result", i)
+			continue
+		}
+		if os.Getenv("VERIF_DEBUG_QUIET") != "" && len(c.res.Findings) == 0 {
 			continue
 		}
 		t.Logf("#%d %s H=%d inputs=%v ops=%d -> %.1fms recv=%d/%d maxheld=%d term=%s rej=%q findings=%v aborted=%q", i, sc.class(), sc.H, sc.Inputs, len(sc.Script), float64(el.Microseconds())/1000, c.res.Received, c.res.Written, c.res.MaxHeld, c.res.TermWay, c.res.Rejected, c.res.Findings, c.res.Aborted)
